@@ -110,4 +110,49 @@ theorem tie_goal_reached (F : Fns) (τ ε : Rat) (goals : List GState) (traj : L
   unfold Gen.PlanningProblem_goal_reached goalReached
   rw [tie_goal_reached_loop, enumFrom_map, List.map_reverse]
 
+/-! ### admissible goal states: `_validate_goal_state` and the `state_list` setter -/
+
+theorem tie_validate_loop (st : RawG) : ∀ (l : List Fld),
+    Gen.GoalRegion_validate_goal_state.loop1 st validFields l = validateLoop st l
+  | [] => by rw [Gen.GoalRegion_validate_goal_state.loop1]; rfl
+  | f :: rest => by
+    rw [Gen.GoalRegion_validate_goal_state.loop1, validateLoop]
+    simp only [CR.PyG.mem, CR.PyG.rawGet, CR.PyG.isInst]
+    by_cases hv : validFields.contains f = true
+    · cases hl : st.lookup f with
+      | none => cases f <;> simp_all [bind, Except.bind, validFields]
+      | some c =>
+        by_cases hp : f = Fld.position
+        · subst hp; cases hc : isInst c Cls.shape <;>
+            simp_all [bind, Except.bind, pure, Except.pure, throw, throwThe, MonadExceptOf.throw, requiredCls, tie_validate_loop st rest]
+        · by_cases ho : f = Fld.orientation
+          · subst ho; cases hc : isInst c Cls.angleInterval <;>
+              simp_all [bind, Except.bind, pure, Except.pure, throw, throwThe, MonadExceptOf.throw, requiredCls, tie_validate_loop st rest]
+          · have hr : requiredCls f = Cls.interval := by cases f <;> simp_all [requiredCls]
+            cases hc : isInst c Cls.interval <;>
+              simp_all [bind, Except.bind, pure, Except.pure, throw, throwThe, MonadExceptOf.throw, tie_validate_loop st rest]
+    · simp_all [throw, throwThe, MonadExceptOf.throw]
+
+/-- `_validate_goal_state` as the CURRENT source has it is the model's `validateGoalState`: mandatory `time_step`, only the four
+    valid fields, `position` a Shape, `orientation` an AngleInterval, the others Intervals. -/
+theorem tie_validate (st : RawG) : Gen.GoalRegion_validate_goal_state st = validateGoalState st := by
+  unfold Gen.GoalRegion_validate_goal_state validateGoalState
+  simp only [CR.PyG.rawGet, CR.PyG.rawUsed]
+  have hvf : [Fld.time_step, Fld.position, Fld.velocity, Fld.orientation] = validFields := rfl
+  cases hl : st.lookup Fld.time_step with
+  | none => simp [bind, Except.bind]
+  | some c => cases c <;> simp [bind, Except.bind, throw, throwThe, MonadExceptOf.throw, hvf, tie_validate_loop]
+
+theorem tie_set_state_list_loop (l0 : List RawG) : ∀ (l : List RawG),
+    Gen.GoalRegion_set_state_list.loop1 l0 l = (validateAll l).map (fun _ => l0)
+  | [] => by rw [Gen.GoalRegion_set_state_list.loop1]; rfl
+  | st :: rest => by
+    rw [Gen.GoalRegion_set_state_list.loop1, tie_validate, validateAll]
+    cases validateGoalState st <;> simp [bind, Except.bind, Except.map, tie_set_state_list_loop l0 rest]
+
+/-- the `state_list` setter (every goal state validated, then stored) is the model's `setStateList`. -/
+theorem tie_set_state_list (l : List RawG) : Gen.GoalRegion_set_state_list l = setStateList l := by
+  unfold Gen.GoalRegion_set_state_list setStateList
+  exact tie_set_state_list_loop l l
+
 end CR.Goal
